@@ -24,7 +24,8 @@ SPECIAL = [0.0, -0.0, 5e-324, -5e-324, 2.2250738585072014e-308, 1.79769313486231
 HEADERS = ["", "x y e", "# already commented", "line1\nline2", "\nleading newline", "trailing\n",
            "1.0 2.0 3.0", "a\n1.0 2.0 3.0\nb", "   leading blanks", "#", "##\n#\n", "tab\there",
            "0 0 0\n0 0 0", "a # b", "% not a comment", "-1e5 nan inf", "a\r1 2 3", "a\r\n4 5 6",
-           "mac\rline\rbreaks", "7 8 9\r"]
+           "mac\rline\rbreaks", "7 8 9\r", "page 1\x0c7 8 9", "vt\x0b1 2 3", "fs\x1c4 5 6", "gs\x1d1 1 1",
+           "rs\x1e2 2 2", "us\x1f3 3 3", "del\x7f", "bell\x07 1 2 3", "nul\x00x"]
 UNITS = ["counts", "dimensionless", "m", "angstrom", "us", "meV", None]
 REFUSALS = ["no_variances", "bin_edges", "mask", "ndim0", "ndim2", "no_coord", "ambiguous"]
 
@@ -56,7 +57,7 @@ class XyeEngine(Engine):
         "variances limited to [0, 1e300] (sqrt then square stays finite); 'a few ulp' = 4",
         "torn-file loading is not judged (format has no integrity data)",
         "acknowledgement rule for writes: a save that returns has produced a loadable, equal table",
-        "headers are printable ASCII plus \\n, \\r and \\t",
+        "headers are ASCII: printable characters plus control characters incl. \\n \\r \\t VT FF FS GS RS US",
     ]
     components_real = ["scippneutron.io.xye", "numpy.savetxt/loadtxt", "scipp", "tmpfs files"]
     components_stubbed = ["text sink = SimStringIO (records writes, fails at a scheduled ordinal)",
@@ -120,7 +121,8 @@ class XyeEngine(Engine):
         elif hk < 0.7:
             header = rng.choice(HEADERS)
         else:
-            alphabet = "abcXYZ0123456789 .-+e#\n\t\r,;:'\"()[]%$!?*/\\=<>_"
+            alphabet = ("abcXYZ0123456789 .-+e#\n\t\r,;:'\"()[]%$!?*/\\=<>_"
+                        "\x0b\x0c\x1c\x1d\x1e\x1f\x01\x7f")
             header = "".join(rng.choice(alphabet) for _ in range(rng.randrange(1, 80)))
         scn = {
             "kind": "roundtrip", "n": n, "dim": dim,
